@@ -128,12 +128,15 @@ func runBackend(b backend, eng *engine, d ast.Expr, vals map[string]*val.Val, wa
 		}()
 		res = cl(env1.Inherit(eng.renv))
 	})
-	o.events = append(o.events, trace...)
-	// standard output is appended after the calls: its interleaving with host calls is not
-	// observable by the embedding program, its content is.
+	// host functions write a marker line into the captured stream, so calls and prints keep
+	// their relative order
 	if out != "" {
 		for _, ln := range strings.Split(strings.TrimSuffix(out, "\n"), "\n") {
-			o.events = append(o.events, sxList("print", sxStr(ln)))
+			if strings.HasPrefix(ln, callMarker) {
+				o.events = append(o.events, strings.TrimPrefix(ln, callMarker))
+			} else {
+				o.events = append(o.events, sxList("print", sxStr(ln)))
+			}
 		}
 	}
 	if o.class != "" {
@@ -167,25 +170,61 @@ func skeleton(s string) string {
 	return reTime.ReplaceAllString(s, "(time)")
 }
 
-func externsFor(src string) string {
+// externsFor tabulates the external functions (regexp.MatchString, timelib.Strtotime) on the
+// literal arguments that occur in the tree: the generators only ever pass literals to them.
+func externsFor(d ast.Expr) string {
 	rs, ts := []string{}, []string{}
-	if strings.Contains(src, "match(") || strings.Contains(src, ".match(") {
-		for _, p := range regexPats {
-			for _, s := range regexSubs {
-				m, err := regexp.MatchString(p, s)
-				r := sxBool(m)
-				if err != nil {
-					r = "err"
-				}
-				rs = append(rs, sxList(sxStr(p), sxStr(s), r))
+	seenR, seenT := map[string]bool{}, map[string]bool{}
+	var walk func(e ast.Expr)
+	walk = func(e ast.Expr) {
+		switch x := e.(type) {
+		case *ast.ListExpr:
+			for _, el := range x.Elems {
+				walk(el)
 			}
+		case *ast.MapExpr:
+			for _, p := range x.Pairs {
+				walk(p.Key)
+				walk(p.Val)
+			}
+		case *ast.ObjExpr:
+			for _, f := range x.Fields {
+				walk(f.Val)
+			}
+		case *ast.CallExpr:
+			walk(x.Callee)
+			for _, a := range x.Args {
+				walk(a)
+			}
+			if id, ok := x.Callee.(*ast.IdentExpr); ok {
+				if id.Name == "match" && len(x.Args) == 2 {
+					p, ok1 := x.Args[0].(*ast.StrExpr)
+					sub, ok2 := x.Args[1].(*ast.StrExpr)
+					if ok1 && ok2 && !seenR[p.Val+"\x00"+sub.Val] {
+						seenR[p.Val+"\x00"+sub.Val] = true
+						m, err := regexp.MatchString(p.Val, sub.Val)
+						r := sxBool(m)
+						if err != nil {
+							r = "err"
+						}
+						rs = append(rs, sxList(sxStr(p.Val), sxStr(sub.Val), r))
+					}
+				}
+				if id.Name == "strtotime" && len(x.Args) == 1 {
+					if t, ok := x.Args[0].(*ast.StrExpr); ok && !seenT[t.Val] {
+						seenT[t.Val] = true
+						ts = append(ts, sxList(sxStr(t.Val), fmt.Sprintf("%d", timelib.Strtotime(t.Val))))
+					}
+				}
+			}
+		case *ast.SubscriptExpr:
+			walk(x.Var)
+			walk(x.Idx)
+		case *ast.MemberExpr:
+			walk(x.Obj)
 		}
 	}
-	if strings.Contains(src, "strtotime(") {
-		for _, t := range timePool {
-			ts = append(ts, sxList(sxStr(t), fmt.Sprintf("%d", timelib.Strtotime(t))))
-		}
-	}
+	walk(d)
 	return sxList(sxList(rs...), sxList(ts...))
 }
 
@@ -235,7 +274,7 @@ func evalCases(eng *engine, vars []envVar, vals map[string]*val.Val, src string,
 	out = append(out, cc)
 
 	rc := Case{Human: "run " + src, Tags: []string{tag}, Nontriv: true}
-	rc.Req = sxList("run", "plain", eng.funsx, encVars(vars, vals), externsFor(src), encExpr(d))
+	rc.Req = sxList("run", "plain", eng.funsx, encVars(vars, vals), externsFor(d), encExpr(d))
 	outs := make([]outcome, len(backends))
 	for i, b := range backends {
 		outs[i] = runBackend(b, eng, d, vals, ty)
